@@ -457,7 +457,9 @@ func (r *fieldSelectionRewriter) preserveTypeNameSelection(selectionSetInfo sele
 
 	// copying the original selection preserves its directives (e.g. defer) and
 	// records provenance automatically via the OnCopyField hook
-	*selectionRefs = append(*selectionRefs, r.operation.CopySelection(selectionSetInfo.typenameSelectionRef))
+	for _, typenameSelectionRef := range selectionSetInfo.typenameSelectionRefs {
+		*selectionRefs = append(*selectionRefs, r.operation.CopySelection(typenameSelectionRef))
+	}
 }
 
 func (r *fieldSelectionRewriter) fieldTypeNameFromUpstreamSchema(fieldRef int, enclosingTypeName ast.ByteSlice) (typeName string, ok bool) {
